@@ -389,3 +389,171 @@ Proof.
     + exact (apply_base_R vs t v rs Hok (or_intror Ek) H).
     + injection H as <-. constructor; [reflexivity|constructor].
 Qed.
+
+(* ---------------------------------------------------------------------------------------- *)
+(* rendering: a query is only produced from placeholder-free values *)
+Lemma render_value_no_ph field x q : render_value field x = Ok q -> placeholders (vparts x) = [].
+Proof.
+  destruct x as [v|v|e i]; cbn [render_value vparts]; [| |reflexivity].
+  - destruct (convert K17 v) eqn:E; try discriminate. intros _. eapply convert_ok_no_ph. exact E.
+  - destruct (render_re v) eqn:E; try discriminate. intros _. eapply render_re_ok_no_ph. exact E.
+Qed.
+
+Lemma render_all_no_ph field l : forall atoms, render_all field l = Ok atoms ->
+  Forall (fun x => placeholders (vparts x) = []) l.
+Proof.
+  induction l as [|x l IH]; intros atoms H; [constructor|].
+  cbn [render_all] in H. destruct (render_value field x) eqn:E; try discriminate. cbn [obind] in H.
+  destruct (render_all field l) eqn:E2; try discriminate.
+  constructor; [eapply render_value_no_ph; exact E | eapply IH; reflexivity].
+Qed.
+
+Theorem run_ok_resolved c q : run c = Ok q ->
+  exists vals, run_pipeline c = Ok vals /\ Forall (fun x => placeholders (vparts x) = []) vals.
+Proof.
+  unfold run. destruct (run_pipeline c) as [vals| |]; try discriminate. cbn [obind].
+  unfold render_item. destruct (render_all (c_field c) vals) eqn:E; try discriminate. intros _.
+  exists vals. split; [reflexivity | eapply render_all_no_ph; exact E].
+Qed.
+
+(* a placeholder left in a string or regular-expression value makes the conversion fail with
+   SigmaPlaceholderError (never a query, never another error: wildcards are configured) *)
+Lemma convert_K17_ph v : placeholders v <> [] -> convert K17 v = SigmaErr E_Placeholder.
+Proof.
+  induction v as [|p v IH]; intros H; [contradiction|].
+  destruct p; cbn [convert]; try reflexivity;
+    (rewrite IH; [reflexivity | rewrite placeholders_cons in H; exact H]).
+Qed.
+Lemma render_value_ph field x : placeholders (vparts x) <> [] -> render_value field x = SigmaErr E_Placeholder.
+Proof.
+  destruct x as [v|v|e i]; cbn [vparts render_value]; intros H.
+  - rewrite convert_K17_ph by exact H. reflexivity.
+  - unfold render_re. destruct (placeholders v); [contradiction | reflexivity].
+  - contradiction.
+Qed.
+Lemma render_all_err field l : forall e, render_all field l = SigmaErr e -> e = E_Placeholder \/ e = E_Value.
+Proof.
+  induction l as [|x l IH]; intros e H; [discriminate|]. cbn [render_all] in H.
+  destruct (render_value field x) eqn:E; cbn [obind] in H.
+  - destruct (render_all field l) eqn:E2; try discriminate. injection H as <-. eapply IH. reflexivity.
+  - injection H as <-. destruct x as [v|v|ex i]; cbn [render_value] in E.
+    + destruct (placeholders v) as [|n0 ns] eqn:P.
+      * (* no placeholder: convert K17 cannot fail *)
+        exfalso. assert (X : exists q, convert K17 v = Ok q).
+        { clear E. induction v as [|p v IHv]; [eexists; reflexivity|].
+          destruct p; try discriminate; cbn [convert];
+            (destruct IHv as [q Hq]; [rewrite placeholders_cons in P; exact P|]; rewrite Hq; eexists; reflexivity). }
+        destruct X as [q Hq]. rewrite Hq in E. destruct field; discriminate.
+      * left. rewrite convert_K17_ph in E; [|rewrite P; discriminate].
+        destruct field; cbn [obind] in E; injection E as <-; reflexivity.
+    + unfold render_re in E. destruct (placeholders v); [discriminate|]. cbn [obind] in E.
+      injection E as <-. left. reflexivity.
+    + destruct field; [discriminate|]. destruct (has_sub t_field ex); [|discriminate].
+      injection E as <-. right. reflexivity.
+  - discriminate.
+Qed.
+
+Theorem unresolved_fails c vals :
+  run_pipeline c = Ok vals -> Exists (fun x => placeholders (vparts x) <> []) vals ->
+  exists e, run c = SigmaErr e /\ (e = E_Placeholder \/ e = E_Value).
+Proof.
+  intros Hp Hex. unfold run. rewrite Hp. cbn [obind]. unfold render_item.
+  destruct (render_all (c_field c) vals) as [atoms|e|e] eqn:E.
+  - exfalso. apply render_all_no_ph in E. rewrite Forall_forall in E. apply Exists_exists in Hex.
+    destruct Hex as [x [Hx Hn]]. apply Hn. apply E. exact Hx.
+  - exists e. split; [reflexivity|]. eapply render_all_err. exact E.
+  - exfalso. clear -E. revert e E. induction vals as [|x l IH]; intros e E; [discriminate|].
+    cbn [render_all] in E. destruct (render_value (c_field c) x) eqn:E1; cbn [obind] in E.
+    + destruct (render_all (c_field c) l) eqn:E2; try discriminate. eapply IH. reflexivity.
+    + discriminate.
+    + destruct x as [v|v|ex i]; cbn [render_value] in E1.
+      * assert (X : forall w cc, convert K17 w <> Crash cc).
+        { induction w as [|p w IHw]; intros cc; [discriminate|].
+          destruct p; cbn [convert]; try discriminate;
+            (destruct (convert K17 w) eqn:Ew; cbn [obind]; try discriminate; exfalso; eapply IHw; reflexivity). }
+        destruct (convert K17 v) eqn:Ev; cbn [obind] in E1; try discriminate. eapply X. exact Ev.
+      * unfold render_re in E1. destruct (placeholders v); discriminate.
+      * destruct (c_field c); [discriminate|]. destruct (has_sub t_field ex); discriminate.
+Qed.
+
+(* ---------------------------------------------------------------------------------------- *)
+(* what an emitted literal reads back as *)
+Lemma ph_of_items v : ph_of (items v) = placeholders v.
+Proof.
+  induction v as [|p v IH]; [reflexivity|].
+  change (items (p :: v)) with (part_items p ++ items v).
+  unfold ph_of in *. rewrite flat_map_app, IH, (placeholders_cons p v). f_equal.
+  destruct p; simpl; try reflexivity. induction s as [|c s IHs]; [reflexivity | exact IHs].
+Qed.
+
+Lemma no_ph_items v : placeholders v = [] -> forall n, ~ In (Ph n) (items v).
+Proof.
+  intros H n Hin. rewrite <- ph_of_items in H.
+  assert (X : In n (ph_of (items v))).
+  { unfold ph_of. apply in_flat_map. exists (Ph n). split; [exact Hin | left; reflexivity]. }
+  rewrite H in X. destruct X.
+Qed.
+
+Theorem string_no_raw K v q : wf_escaping K = true -> convert K v = Ok q ->
+  tread K q = Some (filter_items K (items v)) /\ forall n, ~ In (Ph n) (items v).
+Proof.
+  intros Hw H. split; [exact (convert_decode K v q Hw H)|].
+  apply no_ph_items. eapply convert_ok_no_ph. exact H.
+Qed.
+
+Lemma rx_unescape_escape s : rx_unescape (rx_escape s) = Some s.
+Proof.
+  induction s as [|c s IH]; [reflexivity|].
+  unfold rx_escape in *. cbn [flat_map].
+  destruct (N.eqb c c_slash || N.eqb c c_bs) eqn:E.
+  - cbn [app rx_unescape]. rewrite N.eqb_refl. rewrite IH. reflexivity.
+  - apply orb_false_iff in E. destruct E as [_ Eb]. cbn [app rx_unescape]. rewrite Eb, IH. reflexivity.
+Qed.
+
+Theorem regex_no_raw v q : render_re v = Ok q ->
+  rx_unescape q = Some (to_plain false v) /\ placeholders v = [].
+Proof.
+  unfold render_re. destruct (placeholders v) eqn:P; [|discriminate].
+  intros H. injection H as <-. split; [apply rx_unescape_escape | reflexivity].
+Qed.
+
+Lemma K17_wf : wf_escaping K17 = true.
+Proof. reflexivity. Qed.
+
+(* ---------------------------------------------------------------------------------------- *)
+(* the specification's view of a model case (plain re-tagging of the input) *)
+Definition to_smod (m : vmod) : smod :=
+  match m with MExpand => SExpand | MContains => SContains | MStartswith => SStartswith | MEndswith => SEndswith end.
+Definition to_sitem (t : titem) : sitem :=
+  {| s_kind := match t_kind t with
+               | KValueList => SValueList | KWildcard => SWildcard | KQuery e m => SQuery e m end;
+     s_inc := t_inc t; s_exc := t_exc t |}.
+(* a variable has a usable table when it exists, is a scalar or a list, and every element is a
+   string or a number (an empty list is an empty table) *)
+Definition tabs_of (vs : vars) (n : str) : stab :=
+  match assoc n vs with
+  | None => SNoTable
+  | Some tab =>
+    let l := match tab with TScalar x => [x] | TList l => l end in
+    if forallb (fun x => match x with VText _ => true | VBad => false end) l
+    then STable (flat_map (fun x => match x with VText t => [t] | VBad => [] end) l)
+    else SNoTable
+  end.
+Definition expected (c : case) : list (option (list sval)) :=
+  map (fun s => s_expected1 (tabs_of (c_vars c)) (if c_field c then Some fname else None)
+                            (map to_sitem (c_items c))
+                            (s_source (c_re c) (map to_smod (c_mods c)) s))
+      (c_values c).
+Definition lhs_of (c : case) : str := if c_field c then fname else kwname.
+
+(* finding C17-F1: under `all` the replacements of one value are AND-linked *)
+Definition witness_all : case :=
+  {| c_field := true; c_re := false; c_all := true; c_mods := [MContains; MExpand];
+     c_values := [[37; 120; 37]; [98]];
+     c_items := [{| t_kind := KValueList; t_inc := None; t_exc := None |}];
+     c_vars := [([120], TList [VText [49]; VText [50]])] |}.
+Lemma linking_refuted :
+  exists c q, run c = Ok q /\ s_accepts (lhs_of c) (c_all c) (expected c) (Ok q) = false
+              /\ s_accepts (lhs_of c) false (expected c) (run {| c_field := c_field c; c_re := c_re c; c_all := false;
+                     c_mods := c_mods c; c_values := c_values c; c_items := c_items c; c_vars := c_vars c |}) = true.
+Proof. exists witness_all. eexists. split; [vm_compute; reflexivity|]. split; vm_compute; reflexivity. Qed.
